@@ -5,6 +5,9 @@
 //!   61 SPUB  p h n (id vflag [value])*      -> [0 nerr (id code)*] | [1 status]
 //!   62 V1STR p n (update as in V1SET)*       -> [0 nerr (k code)*] | [1 status]     kuksa.val.v1 StreamedUpdate
 //!   63 SDVSTR p n (id vflag [value])*        -> [0 nerr (id code)*] | [1 status]    sdv Collector StreamDatapoints
+//!   64 LPROV p n sig*                       -> [0 handle] | [1 status]   a provider like 60, but behind the handler called
+//!      in process (its request stream is a fixed list, tonic-mock) and LAZY: what the broker sends it stays unread
+//!      in the handler's 10-slot channel until an operation cannot move any more or the state is dumped
 //! (62 / 63: principal p keeps ONE stream open for the whole case; every operation is one request message on it)
 //! The server runs with authorization enabled; principal p presents a freshly signed token carrying its scope.
 use crate::codec::{Cur, Tok};
@@ -45,6 +48,63 @@ pub struct V1Stream {
 pub struct SdvStream {
     tx: tokio::sync::mpsc::Sender<ps::StreamDatapointsRequest>,
     rx: tonic::Streaming<ps::StreamDatapointsReply>,
+}
+
+pub struct LazyProv {
+    rx: std::pin::Pin<Box<dyn futures::Stream<Item = Result<p2::OpenProviderStreamResponse, tonic::Status>> + Send>>,
+    inbox: Arc<Mutex<Vec<Vec<(i32, DataValue)>>>>,
+}
+
+impl LazyProv {
+    /// reads at most `max` messages that are ready now
+    fn drain(&mut self, max: usize) -> usize {
+        use futures::{FutureExt, StreamExt};
+        use p2::open_provider_stream_response::Action as A;
+        let mut n = 0;
+        while n < max {
+            match self.rx.next().now_or_never() {
+                Some(Some(Ok(m))) => {
+                    n += 1;
+                    if let Some(A::BatchActuateStreamRequest(r)) = m.action {
+                        let call = r
+                            .actuate_requests
+                            .into_iter()
+                            .map(|a| {
+                                let id = match a.signal_id.and_then(|s| s.signal) {
+                                    Some(p2::signal_id::Signal::Id(i)) => i,
+                                    _ => -1,
+                                };
+                                (id, from_v2_value(&a.value).unwrap_or(DataValue::NotAvailable))
+                            })
+                            .collect();
+                        self.inbox.lock().unwrap().push(call);
+                    }
+                }
+                _ => break,
+            }
+        }
+        n
+    }
+}
+
+/// runs an operation of the broker while lazy providers exist: when it has not finished after 30 ms (a provider's
+/// channel is full and the broker waits for room) every lazy provider reads ONE message, as a slow but living
+/// client would, and the operation is awaited further
+pub async fn with_lazy_drain<T>(lazy: &mut [LazyProv], fut: impl std::future::Future<Output = T>) -> T {
+    tokio::pin!(fut);
+    loop {
+        match tokio::time::timeout(Duration::from_millis(30), &mut fut).await {
+            Ok(v) => return v,
+            Err(_) => {
+                if lazy.is_empty() {
+                    return fut.await;
+                }
+                for l in lazy.iter_mut() {
+                    l.drain(1);
+                }
+            }
+        }
+    }
 }
 
 /// the id no generated request uses: a datapoint for it is answered UNKNOWN_DATAPOINT, which is the barrier
@@ -251,6 +311,54 @@ pub async fn step_prov(w: &mut World, op: Tok, c: &mut Cur<'_>) -> Vec<Vec<Tok>>
             }
             vec![o]
         }
+        64 => {
+            let (Some(p), Some(n)) = (c.next(), c.next()) else { return bad };
+            let mut identifiers = Vec::new();
+            for _ in 0..n {
+                match c.next() {
+                    Some(0) | Some(1) => identifiers.push(p2::SignalId { signal: None }),
+                    Some(2) => match c.string() {
+                        Some(s) => identifiers.push(p2::SignalId { signal: Some(p2::signal_id::Signal::Path(s)) }),
+                        None => return bad,
+                    },
+                    Some(3) => match c.next() {
+                        Some(i) => identifiers.push(p2::SignalId { signal: Some(p2::signal_id::Signal::Id(i as i32)) }),
+                        None => return bad,
+                    },
+                    _ => return bad,
+                }
+            }
+            let first = p2::OpenProviderStreamRequest {
+                action: Some(p2::open_provider_stream_request::Action::ProvideActuationRequest(p2::ProvideActuationRequest {
+                    actuator_identifiers: identifiers,
+                })),
+            };
+            let mut rq = tonic_mock::streaming_request(vec![first]);
+            rq.extensions_mut().insert(w.perm(p));
+            let resp = match p2::val_server::Val::open_provider_stream(&w.broker, rq).await {
+                Err(s) => return vec![vec![1, code_num(s.code())]],
+                Ok(r) => r,
+            };
+            let mut st: std::pin::Pin<Box<dyn futures::Stream<Item = Result<p2::OpenProviderStreamResponse, tonic::Status>> + Send>> =
+                Box::pin(resp.into_inner());
+            use futures::StreamExt;
+            match tokio::time::timeout(Duration::from_secs(2), st.next()).await {
+                Ok(Some(Ok(m))) => match m.action {
+                    Some(p2::open_provider_stream_response::Action::ProvideActuationResponse(_)) => {
+                        let inbox = Arc::new(Mutex::new(Vec::new()));
+                        let avail = Arc::new(std::sync::atomic::AtomicBool::new(true));
+                        w.provs.push((inbox.clone(), avail));
+                        let h = w.provs.len() - 1;
+                        w.lazy.push(LazyProv { rx: st, inbox });
+                        vec![vec![0, h as Tok]]
+                    }
+                    _ => vec![vec![-5]],
+                },
+                Ok(Some(Err(s))) => vec![vec![1, code_num(s.code())]],
+                Ok(None) => vec![vec![-6]],
+                Err(_) => vec![vec![-88]],
+            }
+        }
         62 => {
             let (Some(p), Some(n)) = (c.next(), c.next()) else { return bad };
             let cts = crate::fam_api::client_ts(w);
@@ -388,6 +496,13 @@ pub async fn step_prov(w: &mut World, op: Tok, c: &mut Cur<'_>) -> Vec<Vec<Tok>>
 
 /// before the state is dumped: everything the broker has queued for the stream providers is read
 pub async fn sync_streams(w: &mut World) {
+    // the handler tasks of the lazy providers get a chance to forward, then everything readable is read
+    for _ in 0..3 {
+        tokio::task::yield_now().await;
+        for l in w.lazy.iter_mut() {
+            l.drain(1000);
+        }
+    }
     let mut hs: Vec<usize> = w.sprovs.keys().copied().collect();
     hs.sort();
     for h in hs {
